@@ -19,8 +19,8 @@ ID = "C19"
 CASES = {"quick": 640, "thorough": 8000}
 FLOOR = {"quick": 520, "thorough": 6500}
 FLOOR_COUNTERS = {
-    "quick": {"membership_lps": 7500, "height_lps": 12000, "queries_judged": 9000, "relation_fits": 1000, "hulls_with_unselected": 400, "estimators_with_a_past": 500, "non_float64_features": 150, "non_default_tolerance": 120, "configured_by_attribute_assignment": 500, "calls_with_more_than_400000_queries": 6, "caller_buffers_overwritten_after_fit": 200, "rejected_calls_in_the_history": 300, "index_arrays_counting_from_the_end_shared_across_tables": 40},
-    "thorough": {"membership_lps": 115000, "height_lps": 180000, "queries_judged": 140000, "relation_fits": 14000, "hulls_with_unselected": 5000, "estimators_with_a_past": 7000, "non_float64_features": 2000, "non_default_tolerance": 1600, "configured_by_attribute_assignment": 7000, "calls_with_more_than_400000_queries": 80, "caller_buffers_overwritten_after_fit": 3000, "rejected_calls_in_the_history": 4000, "index_arrays_counting_from_the_end_shared_across_tables": 500},
+    "quick": {"hulls_over_more_than_65536_samples": 2, "membership_lps": 7500, "height_lps": 12000, "queries_judged": 9000, "relation_fits": 1000, "hulls_with_unselected": 400, "estimators_with_a_past": 500, "non_float64_features": 150, "non_default_tolerance": 120, "configured_by_attribute_assignment": 500, "calls_with_more_than_400000_queries": 6, "caller_buffers_overwritten_after_fit": 200, "rejected_calls_in_the_history": 300, "index_arrays_counting_from_the_end_shared_across_tables": 40},
+    "thorough": {"hulls_over_more_than_65536_samples": 20, "membership_lps": 115000, "height_lps": 180000, "queries_judged": 140000, "relation_fits": 14000, "hulls_with_unselected": 5000, "estimators_with_a_past": 7000, "non_float64_features": 2000, "non_default_tolerance": 1600, "configured_by_attribute_assignment": 7000, "calls_with_more_than_400000_queries": 80, "caller_buffers_overwritten_after_fit": 3000, "rejected_calls_in_the_history": 4000, "index_arrays_counting_from_the_end_shared_across_tables": 500},
 }
 RULE = (
     "case = samples with 1-3 hull dimensions and 0-3 extra high-dimensional columns placed in any column order (low_dim_idx in "
@@ -40,6 +40,9 @@ RULE = RULE + " " + forms.RULE_SUFFIX
 
 
 def gen(rng, tier, index):
+    if index % 320 == 9:
+        # more than 2^16 training samples (sizes that only occur at scale): generated in run() from the seed
+        return {"huge": True, "seed": int(rng.integers(1 << 30)), "d": int(gens.pick(rng, (2, 3, 2))), "kind": gens.pick(rng, ("convex_noisy", "noise"))}
     d = int(rng.integers(1, 4))
     h = int(rng.integers(0, 4))
     hi = 26 if tier == "quick" else 45
@@ -106,7 +109,45 @@ def _is_vertex(P, y, i):
     return bool(r.fun > y[i]), float(r.fun - y[i])
 
 
+def _run_huge(case, j):
+    """A hull over more than 65536 samples: no LP per sample; judged by what holds for every lower hull - no training
+    sample lies below it, selected samples lie on it, and the sample that minimises y + c.x (a linear functional with
+    positive weight on the target) is a vertex, for every direction c in which that minimiser is unique."""
+    from skmatter.sample_selection import DirectionalConvexHull as DCH
+
+    rg = np.random.default_rng(case["seed"])
+    n, d = int(rg.integers(66000, 72000)), case["d"]
+    P = rg.normal(size=(n, d)) * rg.uniform(0.5, 2.0, size=d)
+    y = (0.3 * (P**2).sum(axis=1) if case["kind"] == "convex_noisy" else 0.0) + rg.normal(size=n)
+    low = [int(c) for c in rg.permutation(d + 1)[:d]]
+    X = rg.normal(size=(n, d + 1))
+    X[:, low] = P
+    j.tag(f"hull_dim:{d}", "samples:more_than_65536", f"target:{case['kind']}")
+    m = DCH(low_dim_idx=list(low))
+    j.lib("fit", m.fit, X, y)
+    sel = np.array(sorted(int(v) for v in m.selected_idx_))
+    ys = max(1.0, float(np.abs(y).max()))
+    ds = np.asarray(j.lib("score_samples", m.score_samples, X, y))
+    j.ok("no training sample lies below the hull", float(ds.min()) >= -1e-7 * ys, {"min": float(ds.min()), "at": int(ds.argmin())})
+    j.ok("selected samples have zero distance", float(np.abs(ds[sel]).max()) <= 1e-7 * ys, float(np.abs(ds[sel]).max()))
+    selset = set(sel.tolist())
+    for t in range(300):
+        c = rg.normal(size=d) * float(10.0 ** rg.uniform(-1.5, 2.5))
+        f = y + P @ c
+        i0, i1 = np.argpartition(f, 1)[:2]
+        if abs(f[i1] - f[i0]) <= 1e-9 * max(1.0, float(np.abs(f).max())):
+            continue
+        i0 = int(i0 if f[i0] <= f[i1] else i1)
+        j.ok("the unique minimiser of y + c.x over the training set is a selected vertex", i0 in selset, {"c": c.tolist(), "sample": i0})
+        j.note("directional_extremes_judged")
+    j.note("hulls_over_more_than_65536_samples")
+    j.nontrivial = True
+    j.sample = {"n": n, "hull_dims": d, "selected": int(len(sel))}
+
+
 def run(case, j):
+    if case.get("huge"):
+        return _run_huge(case, j)
     from skmatter.sample_selection import DirectionalConvexHull as DCH
 
     Xin, y, low = case["X"], case["y"], case["low"]
